@@ -21,14 +21,16 @@ pub struct VcDiff;
 pub enum DiffCase {
     /// n expectations (regex alternations realising row masks), m distinct lines
     Matrix { n: usize, m: usize, bits: u64, quants: Vec<Quant> },
-    /// expectations from a small word alphabet of all rule kinds, lines over {a,b}
+    /// expectations from a small word alphabet of all rule kinds, lines over {a, b, empty line}
     Words { exps: Vec<(usize, Quant)>, lines: Vec<usize>, last_newline: bool },
     /// the documented non-deterministic example (`foo (*)`, `foo` on two `foo` lines)
     DocumentedNonExample,
 }
 
 /// word alphabet of pass 2: expression text and kind suffix
-pub const WORD_EXPS: [(&str, &str); 7] = [
+pub const WORD_EXPS: [(&str, &str); 8] = [
+    // the expectation of an empty line
+    ("", ""),
     ("a", ""),
     ("b", ""),
     ("a", "no-eol"),
@@ -37,7 +39,8 @@ pub const WORD_EXPS: [(&str, &str); 7] = [
     ("b|c", "regex"),
     ("*", "glob"),
 ];
-pub const WORD_LINES: [&str; 2] = ["a", "b"];
+// (with the empty line: output that consists of nothing but line terminators is output, too)
+pub const WORD_LINES: [&str; 3] = ["a", "b", ""];
 
 thread_local! {
     static MAKER: ExpectationMaker = ExpectationMaker::new(RuleRegistry::default());
@@ -256,7 +259,8 @@ impl Engine for VcDiff {
                     let exps = exps.clone();
                     words(WORD_LINES.len(), m).flat_map(move |lines| {
                         let exps = exps.clone();
-                        let nl: Vec<bool> = if lines.is_empty() { vec![true] } else { vec![true, false] };
+                        // (an empty last line without its terminator is no line at all: that output is the shorter one)
+                        let nl: Vec<bool> = if lines.is_empty() || WORD_LINES[*lines.last().unwrap()].is_empty() { vec![true] } else { vec![true, false] };
                         nl.into_iter().map(move |last_newline| DiffCase::Words { exps: exps.clone(), lines: lines.clone(), last_newline })
                     })
                 })
@@ -267,8 +271,8 @@ impl Engine for VcDiff {
 
     fn bound(&self, tier: Tier) -> String {
         match tier {
-            Tier::Quick => "all 2^(n*m) match matrices x 4^n quantifier vectors for (n,m) in {<=3x3, 4x1, 1x4, 4x2, 2x4, 4x3, 3x4}; all expectation words <=2 over 7 rule-kind atoms x 4 quantifiers x all outputs <=3 lines over {a,b} with/without final newline".into(),
-            Tier::Thorough => "all 2^(n*m) match matrices x 4^n quantifier vectors for all n,m<=4 plus every (n,m) with n*m<=15, n,m<=6; all expectation words <=3 over 7 rule-kind atoms x 4 quantifiers x all outputs <=4 lines over {a,b} with/without final newline".into(),
+            Tier::Quick => "all 2^(n*m) match matrices x 4^n quantifier vectors for (n,m) in {<=3x3, 4x1, 1x4, 4x2, 2x4, 4x3, 3x4}; all expectation words <=2 over 7 rule-kind atoms x 4 quantifiers x all outputs <=3 lines over {a, b, empty line} with/without final newline".into(),
+            Tier::Thorough => "all 2^(n*m) match matrices x 4^n quantifier vectors for all n,m<=4 plus every (n,m) with n*m<=15, n,m<=6; all expectation words <=3 over 7 rule-kind atoms x 4 quantifiers x all outputs <=4 lines over {a, b, empty line} with/without final newline".into(),
         }
     }
 
